@@ -46,6 +46,11 @@ def vector(rng, n, kind):
         v[0], v[-1] = 1, -1
     elif kind == "uniform":
         v = np.ones(N, complex)
+    elif kind == "near_real":
+        v = rng.normal(size=N) + 1j * rng.normal(size=N) * 10.0 ** float(rng.integers(-17, -11))
+    elif kind == "tiny_odd":
+        v = rng.normal(size=N) + 1j * rng.normal(size=N)
+        v[1::2] *= 10.0 ** float(rng.integers(-12, -8))
     elif kind == "half_zero":
         v = rng.normal(size=N) + 1j * rng.normal(size=N)
         v[N // 2:] = 0
@@ -57,7 +62,7 @@ def vector(rng, n, kind):
     return v / np.linalg.norm(v)
 
 
-KINDS = ["complex", "real", "negative", "basis", "sparse", "product", "ghz", "uniform", "half_zero", "zero_state"]
+KINDS = ["complex", "real", "negative", "basis", "sparse", "product", "ghz", "uniform", "half_zero", "zero_state", "near_real", "tiny_odd"]
 
 
 def levels_of(tree):
